@@ -567,9 +567,10 @@ def _doc_op(role: str) -> Callable[[Draw, Spec], Result]:
 def _pattern_op(kind: str) -> Callable[[Draw, Spec], Result]:
     pools = {
         "pattern-empty": [""],
-        "pattern-no-caret": ["[a-z]+$", "abc$", "(a|b)$", ".*x$", "a^$", "\\^a$"],
-        "pattern-no-dollar": ["^[a-z]+", "^abc", "^(a|b)", "^x.*", "^a\\$", "^a$b"],
-        "pattern-alternation": ["^a|b$", "^ab|cd|ef$", "^(a)|(b)$", "^[a-z]+|[0-9]+$"],
+        "pattern-no-caret": ["[a-z]+$", "abc$", "(a|b)$", ".*x$", "a^$", "\\^a$", "a$|^b$"],
+        "pattern-no-dollar": ["^[a-z]+", "^abc", "^(a|b)", "^x.*", "^a\\$", "^a$b", "^a$|b", "^a$|^b"],
+        # the anchors must hold for the pattern as a whole: in ^a$|b$ the second alternative is not anchored at the start
+        "pattern-alternation": ["^a|b$", "^ab|cd|ef$", "^(a)|(b)$", "^[a-z]+|[0-9]+$", "^a$|b$", "^ab$|cd$"],
     }
 
     def op(draw: Draw, spec: Spec) -> Result:
